@@ -64,7 +64,36 @@ fn mismatches(store: &TensorStore) -> Vec<String> {
     bad
 }
 
+/// R6: two streamed writes and finish with the given chunk size, then the artifact read back.
+fn chunking(req: &Value) -> Value {
+    let cs = req["chunk_size"].as_u64().unwrap_or(2).max(1) as usize;
+    let (l1, l2) = (req["len1"].as_u64().unwrap_or(0) as usize, req["len2"].as_u64().unwrap_or(0) as usize);
+    let store = TensorStore::new();
+    let cfg = BlobConfig { chunk_size: cs, ..BlobConfig::default() };
+    let blob = match block_on(BlobStore::new(store.clone(), cfg)) { Ok(b) => b, Err(e) => return json!({"error": e.to_string()}) };
+    let d1: Vec<u8> = (0..l1).map(|i| 0x10 + i as u8).collect();
+    let d2: Vec<u8> = (0..l2).map(|i| 0x80 + i as u8).collect();
+    let mut w = match block_on(blob.writer("f", PutOptions::default())) { Ok(w) => w, Err(e) => return json!({"error": e.to_string()}) };
+    let r1 = block_on(w.write(&d1)).map_err(|e| e.to_string());
+    let r2 = block_on(w.write(&d2)).map_err(|e| e.to_string());
+    let id = match block_on(w.finish()) { Ok(i) => i, Err(e) => return json!({"finish_error": e.to_string(), "violates": l1 + l2 > 0}) };
+    let back = block_on(blob.get(&id)).map_err(|e| e.to_string());
+    let want: Vec<u8> = d1.iter().chain(d2.iter()).copied().collect();
+    let sizes: Vec<usize> = store.get(&format!("_blob:meta:{id}")).ok().and_then(|t| match t.get("_chunks") { Some(TensorValue::Pointers(cs_)) => Some(cs_.clone()), _ => None })
+        .unwrap_or_default().iter().map(|k| store.get(k).ok().and_then(|t| match t.get("_data") { Some(TensorValue::Scalar(ScalarValue::Bytes(b))) => Some(b.len()), _ => None }).unwrap_or(usize::MAX)).collect();
+    let shape_ok = sizes.iter().rev().skip(1).all(|n| *n == cs) && sizes.last().map_or(true, |n| *n >= 1 && *n <= cs);
+    json!({"write1": r1.err(), "write2": r2.err(), "chunk_sizes": sizes, "read_back_equal": back.as_ref().ok() == Some(&want), "read_error": back.err(),
+           "violates": (l1 + l2 > 0) && (back_is_wrong(&want, &store, &id, &blob) || !shape_ok)})
+}
+
+fn back_is_wrong(want: &[u8], _store: &TensorStore, id: &str, blob: &BlobStore) -> bool {
+    !matches!(block_on(blob.get(id)), Ok(ref b) if b == want)
+}
+
 pub fn handle(op: &str, req: &Value) -> Option<Value> {
+    if op == "blob_step" && req["blob_op"].as_str() == Some("chunking") {
+        return Some(chunking(req));
+    }
     if op != "blob_step" {
         return None;
     }
